@@ -244,11 +244,13 @@ def check_slots(ctx):
     # every described field contributes its sync_before_pack to the before-pack list and its
     # sync_after_unpack to the after-unpack list (never crossed)
     lists = {'self.sync_before_pack_methods': 'sync_before_pack', 'self.sync_after_unpack_methods': 'sync_after_unpack'}
-    good, crossed, loops_over_fields = set(), [], False
+    good, crossed, loops_over_fields, other_lists = set(), [], False, set()
     for p in repo.walker(max_paths=ctx.max_paths).paths(fi.node, cls=pb):
         for e in p.all_effects():
             if e.kind == 'loop' and e.sub['iter'] is not None and canon(e.sub['iter']) == 'self.fields':
                 loops_over_fields = True
+            elif e.kind == 'loop' and e.sub['iter'] is not None and isinstance(e.sub['iter'], ast.Attribute) and canon(e.sub['iter'].value) == 'self':
+                other_lists.add(canon(e.sub['iter']))
             if e.kind == 'call' and isinstance(e.call.func, ast.Attribute) and e.call.func.attr == 'append' and len(e.call.args) == 1:
                 recv, arg = canon(e.call.func.value), e.call.args[0]
                 if recv in lists and isinstance(arg, ast.Attribute) and arg.attr in lists.values():
@@ -261,6 +263,8 @@ def check_slots(ctx):
         ctx.violation('R13-hooks', fi, crossed[0], 'a hook is collected into the list of the other phase (or not taken from the field\'s descriptor)', fi.node.lineno, clause='c')
     elif good == set(lists) and loops_over_fields:
         ctx.holds('R13-hooks', fi, 'one before-pack / after-unpack hook collected per described field', 'no described field is forgotten', fi.node.lineno, clause='c')
+    elif good == set(lists) and other_lists:
+        ctx.violation('R13-hooks', fi, 'for ... in %s' % sorted(other_lists)[0], 'the hooks are collected from another list than self.fields (the final field list, embedded packets included): described fields can be missed', fi.node.lineno, clause='c')
     elif not all(v in src for v in lists.values()) or not all(k.split('.', 1)[1] in src for k in lists):
         ctx.violation('R13-hooks', fi, 'collect_sync_methods_from_field_descriptors', 'hooks are not collected into the list of their own phase for every described field', fi.node.lineno, clause='c')
     else:
